@@ -355,7 +355,7 @@ class UserModel:
     """Factory for an uninterpreted user module that is point-wise in time (the documented (N,*,F) ->
     (N,*,H) contract): out[n, t, h] = M(h, in[n, t, 0..F-1]).  Optionally records its inputs."""
     @staticmethod
-    def make(H, record=None, ignore_last=0, name='M', params=('theta',)):
+    def make(H, record=None, ignore_last=0, name='M', params=('theta',), noisy=False):
         import torch
         from pfv.torchlib.tensor import Tensor
         from pfv.torchlib import nn as tn
@@ -372,9 +372,16 @@ class UserModel:
                 rd = input.reader()
                 th = self.theta.reader()
                 shape = input._shape[:-1] + (H,)
+                nz = None
+                if noisy:
+                    # a stochastic layer (dropout in training mode): a fresh random mask per forward call, one draw per (path, step)
+                    from pfv.torchlib import tensor as tt_
+                    nz = tt_._random('U', input._shape[:-1], input.dtype).reader()
 
                 def f(idx):
                     args = [rd(idx[:-1] + (tm.const(k, 'I'),)) for k in range(F)]
+                    if nz is not None:
+                        args.append(nz(idx[:-1]))
                     return tm.app(name, idx[-1], th(()), *args)
                 return Tensor.fresh(f, shape, input.dtype, input.deps | self.theta.deps)
         return _User()
@@ -397,6 +404,21 @@ def mk_hedger(model_kind, d, H=1, feats=None, record=None, criterion=None):
         model = torch.nn.Linear(len(feats) + (H - 1 if 'prev_hedge' in feats else 0), H)
     elif model_kind == 'user':
         feats = feats or ['log_moneyness', 'time_to_maturity', 'volatility']
+        model = UserModel.make(H, record)
+    elif model_kind == 'noisy':
+        feats = feats or ['log_moneyness', 'time_to_maturity', 'volatility']
+        model = UserModel.make(H, record, noisy=True)        # e.g. a net with Dropout, in training mode
+    elif model_kind == 'module_output':
+        # a ModuleOutput feature (point-wise parameter-free module G of two features) next to a plain feature
+        from pfhedge.features import ModuleOutput
+        from pfv.torchlib.tensor import Tensor as _T
+
+        class _G(torch.nn.Module):
+            def forward(self, x):
+                rd = x.reader()
+                Fn = x._shape[-1]
+                return _T.fresh(lambda idx: tm.app('G', *[rd(idx[:-1] + (tm.const(k_, 'I'),)) for k_ in range(Fn)]), x._shape[:-1] + (1,), x.dtype, x.deps)
+        feats = [ModuleOutput(_G(), inputs=['log_moneyness', 'volatility']), 'time_to_maturity']
         model = UserModel.make(H, record)
     elif model_kind == 'identity':
         model = torch.nn.Identity()     # output aliases the input: the worst case for the frame condition
@@ -457,7 +479,7 @@ def hedge_footprint_ob(model_kind, H, stepwise, Tc=None, dkind='european', und='
                 if H >= 2:
                     assume_positive_spot(c, 'spot2')
                 feats = None
-                if model_kind in ('linear', 'user', 'naked'):
+                if model_kind in ('linear', 'user', 'naked', 'noisy'):
                     feats = ['log_moneyness', 'time_to_maturity', 'volatility'] + (['prev_hedge'] if stepwise else [])
                 if feats_override:
                     feats = list(feats_override)
@@ -536,7 +558,7 @@ def scen(kind):
     d = EuropeanOption(und, strike=1.05, maturity=0.06)
     und2 = BrownianStock(sigma=0.2, dt=0.01, cost=2e-3)
     return d, und2
-for kind in ("bs", "ww", "lin", "lin-prev", "lin2", "lin2-prev", "naked", "identity"):
+for kind in ("bs", "ww", "lin", "lin-prev", "lin2", "lin2-prev", "naked", "identity", "module-output", "dropout", "dropout2"):
     d, und2 = scen(kind)
     d.simulate(n_paths=4); und2.simulate(n_paths=4, time_horizon=0.06)
     hedge = [d.ul(), und2] if "2" in kind else None
@@ -546,6 +568,13 @@ for kind in ("bs", "ww", "lin", "lin-prev", "lin2", "lin2-prev", "naked", "ident
     elif kind == "ww": hedger = pnn.Hedger(pnn.WhalleyWilmott(d), pnn.WhalleyWilmott(d).inputs())
     elif kind == "naked": hedger = pnn.Hedger(pnn.Naked(), ["log_moneyness"])
     elif kind == "identity": hedger = pnn.Hedger(torch.nn.Identity(), ["underlier_spot"])
+    elif kind == "module-output":
+        from pfhedge.features import ModuleOutput
+        mo = ModuleOutput(torch.nn.Sequential(torch.nn.Linear(2, 1), torch.nn.Tanh()), inputs=["log_moneyness", "volatility"])
+        hedger = pnn.Hedger(torch.nn.Linear(2, 1), [mo, "time_to_maturity"])
+    elif kind.startswith("dropout"):
+        hedger = pnn.Hedger(torch.nn.Sequential(torch.nn.Linear(3, 8), torch.nn.ReLU(), torch.nn.Dropout(0.5), torch.nn.Linear(8, H)), ["log_moneyness", "time_to_maturity", "volatility"])
+        hedger.train()
     else:
         feats = ["log_moneyness", "time_to_maturity", "volatility"] + (["prev_hedge"] if "prev" in kind else [])
         hedger = pnn.Hedger(torch.nn.Sequential(torch.nn.Linear(3 + (H if "prev" in kind else 0), H), torch.nn.Tanh()), feats)
@@ -555,7 +584,7 @@ for kind in ("bs", "ww", "lin", "lin-prev", "lin2", "lin2-prev", "naked", "ident
     Tn = d.ul().spot.size(1)
     if tuple(out.shape) != (4, H, Tn): bad.append((kind, "shape", tuple(out.shape)))
     if not torch.equal(out[..., -1], out[..., -2]): bad.append((kind, "trade at maturity"))
-    for j in range(Tn - 1):
+    for j in (range(Tn - 1) if not kind.startswith("dropout") else ()):      # a stochastic model draws new noise on every evaluation
         saved = [b.clone() for b in d.ul().buffers()] + [b.clone() for b in und2.buffers()]
         for b in list(d.ul().buffers()) + list(und2.buffers()): b[:, j + 1:] = b[:, j + 1:] * 1.3 + 0.1
         out2 = hedger.compute_hedge(d, hedge=hedge)
@@ -804,6 +833,11 @@ def hedger_obligations(seed, tier='quick'):
     scen.append(dict(model_kind='bs', H=1, stepwise=False, dkind='lookback'))
     scen.append(dict(model_kind='bs', H=1, stepwise=False, dkind='american_binary'))
     scen.append(dict(model_kind='user', H=1, stepwise=False, und='heston'))
+    # a stochastic model (fresh noise per forward call): "no trade at maturity" must hold by construction, not by re-evaluation
+    scen.append(dict(model_kind='noisy', H=1, stepwise=False))
+    scen.append(dict(model_kind='noisy', H=2, stepwise=False))
+    # a ModuleOutput feature in the all-at-once branch
+    scen.append(dict(model_kind='module_output', H=1, stepwise=False))
     # a model whose output aliases its input, fed by a single raw-series feature
     scen.append(dict(model_kind='identity', H=1, stepwise=False, feats_override=('underlier_spot',)))
     scen.append(dict(model_kind='identity', H=1, stepwise=False, feats_override=('variance',), und='heston'))
@@ -1041,7 +1075,7 @@ def batched_vs_stepwise_loop_ob(H):
         for p in paths:
             for so in p.side:
                 if so['kind'] in ('inv-init', 'inv-preserve', 'lemma') or 'list of symbolic length' in so['name']:
-                    r = fc.prove_inst(so['hyps'], so['goal'], timeout_ms=30000)
+                    r = fc.prove_inst(so['hyps'], so['goal'], timeout_ms=90000)
                     rows.append(('%s: %s' % (so['kind'], so['name']), st(r), tm.show(so['goal'])[:300] if r.status != 'unsat' else ''))
             if p.aborted is not None and p.aborted.kind == 'loop-cut':
                 seen_iter = True
@@ -1054,7 +1088,7 @@ def batched_vs_stepwise_loop_ob(H):
             for a_, b_ in zip(W._shape, V._shape):
                 r = smt.prove(facts, tm.eq(ti(a_), ti(b_)), timeout_ms=10000)
                 rows.append(('same shape', st(r), '%s vs %s' % (W._shape, V._shape) if r.status != 'unsat' else ''))
-            r = fc.prove_inst(facts + rng, tm.eq(W.at((n, h, j)), V.at((n, h, j))), timeout_ms=30000)
+            r = fc.prove_inst(facts + rng, tm.eq(W.at((n, h, j)), V.at((n, h, j))), timeout_ms=90000)
             rows.append(('step-by-step hedge[n,h,j] == all-at-once hedge[n,h,j] for every j < T', st(r), tm.show(W.at((n, h, j)))[:300] if r.status != 'unsat' else ''))
         if not (seen_iter and seen_exit):
             return Verdict('unknown', 'engine', time.time() - t0, 'paths: %s' % [p.outcome() for p in paths])
